@@ -130,6 +130,26 @@ pub fn long_chain() -> Vec<u8> {
     v
 }
 
+/// Real sizes that wrong arithmetic on the field would mistake for the announced one: the byte
+/// size truncated to 16 or 17 bits, the word count read as a byte count, the field or the word
+/// count truncated to 8 bits, the two top bits lost in a 16-bit shift.  (Deltas relative to the
+/// announced size; only sizes that differ from it and can hold a header.)
+pub fn alias_deltas(v: u32) -> Vec<i32> {
+    let h = 4 * (v as i64 + 1);
+    let mut sizes = vec![
+        h & 0xffff,
+        h & 0x1ffff,
+        (v as i64 + 1) & !3,
+        4 * ((v as i64 + 1) & 0xff),
+        4 * ((v as i64 & 0xff) + 1),
+        (((v as i64) << 2) & 0xffff) + 4,
+        (h & 0xffff) + 0x10000,
+    ];
+    sizes.sort_unstable();
+    sizes.dedup();
+    sizes.into_iter().filter(|&a| a >= 4 && a != h && (a as usize) < BUF_LEN).map(|a| (a - h) as i32).collect()
+}
+
 /// Single-packet frames for length-field value `v` (C08, C18 layer A, C01).
 pub fn packet_frames(v: u32, with_sdes: bool) -> Vec<Frame> {
     let mut out = Vec::new();
@@ -147,6 +167,12 @@ pub fn packet_frames(v: u32, with_sdes: bool) -> Vec<Frame> {
         }
         // a set padding bit with a zero count in the last byte, at every size
         out.push(Frame { b0: 0xa0, pt, v: v16, delta: 0, lead: 0, trail: false, pad: 0 });
+        // real sizes that mis-computed arithmetic takes for the announced one
+        if matches!(pt, 201 | 203 | 204 | 207) {
+            for delta in alias_deltas(v) {
+                out.push(Frame { b0: 0x80, pt, v: v16, delta, lead: 0, trail: false, pad: 4 });
+            }
+        }
         // a surplus of exactly one period of the 16-bit word count: a comparison done in the
         // field's own width cannot see it
         if is_edge_value(v) && matches!(pt, 201 | 204 | 206 | 207) {
@@ -166,6 +192,11 @@ pub fn compound_frames(v: u32) -> Vec<Frame> {
                 out.push(Frame { b0: 0x80, pt, v: v16, delta, lead, trail: false, pad: 4 });
             }
             out.push(Frame { b0: 0x80, pt, v: v16, delta: 0, lead, trail: true, pad: 4 });
+            if pt == 207 {
+                for delta in alias_deltas(v) {
+                    out.push(Frame { b0: 0x80, pt, v: v16, delta, lead, trail: false, pad: 4 });
+                }
+            }
             // one period of zero bytes behind the tile: 65536 more four-byte tiles (version 0),
             // i.e. a chain longer than any 16-bit counter
             if is_key_value(v) && pt == 207 {
